@@ -303,6 +303,7 @@ def call(ctx, dname, raw: bytes, origin: str, must_raise=False):
     short = dname.split("[")[0]
     if ok:
         ctx.table("outcomes", f"{short}:return")
+        probe(ctx, short, res, case, origin)
         if must_raise:
             ctx.ev("prefix_rejected")
             ctx.fail("prefix_rejected", "strict_prefix_decoded", f"{short}/{origin}", case, observed=repr(res)[:200], prefix_len=len(raw))
@@ -315,6 +316,67 @@ def call(ctx, dname, raw: bytes, origin: str, must_raise=False):
         ctx.table("outcomes", f"{short}:{type(res).__name__}")
     else:
         ctx.fail("escape", "undocumented_exception", f"{exc_sig(res)}<-{short}", case, error=repr(res), origin=origin, tb=tb_tail(res))
+
+
+_PROBE_SKIP = ("print_", "unpack", "from_", "empty", "create_new", "read_from_raw", "set_", "verify_", "check_", "add_", "remove_", "parse_", "get_max_", "pack_command_tuple")
+_PROBE_PLAN = {}
+
+
+def _probe_plan(tp):
+    """Zero-argument public readers of a class: properties and methods that take nothing but self."""
+    plan = _PROBE_PLAN.get(tp)
+    if plan is None:
+        import inspect
+        plan = []
+        for name in dir(tp):
+            if name.startswith("_") or name.startswith(_PROBE_SKIP) or not name.startswith(("to_", "get_", "is_")):
+                continue                    # only the readers that decode further (convert, classify, extract parameters)
+            try:
+                a = inspect.getattr_static(tp, name)
+            except AttributeError:
+                continue
+            if isinstance(a, property):
+                plan.append((name, False))
+            elif inspect.isfunction(a):
+                try:
+                    ps = list(inspect.signature(a).parameters.values())[1:]
+                except (TypeError, ValueError):
+                    continue
+                if all(p.default is not inspect.Parameter.empty or p.kind in (p.VAR_POSITIONAL, p.VAR_KEYWORD) for p in ps):
+                    plan.append((name, True))
+        _PROBE_PLAN[tp] = plan
+    return plan
+
+
+def probe(ctx, short, obj, case, origin, depth=0):
+    """Decoding in two steps: some decoders hand back an object whose content is only parsed when it is asked for (a message to
+    user that may be a reserved CFDP message, a holder, a reserved message and its parameter readers).  Every public
+    zero-argument to_... / get_... / is_... reader of a decoded object is such a second step and must return or fail in a
+    documented way, too - a value accepted lazily must not blow up in the caller's hands with IndexError & co.  Results of
+    to_... / get_... are probed one level further."""
+    if obj is None or isinstance(obj, (int, float, str, bytes, bytearray, bool, tuple, list, dict)) or not type(obj).__module__.startswith("spacepackets"):
+        return
+    import enum
+    if isinstance(obj, enum.Enum):
+        return
+    if getattr(obj, "pdu", 0) is None or getattr(obj, "tlv", 0) is None:
+        return          # an empty holder (the factory found no PDU kind it knows): nothing was decoded, its views are the caller's risk (C12 notes it)
+    for name, is_call in _probe_plan(type(obj)):
+        try:
+            v = getattr(obj, name)
+            if is_call:
+                v = v()
+        except RecursionError:
+            raise
+        except BaseException as e:  # noqa: BLE001
+            ctx.ev("returned_object_readable")
+            allowed = documented_errors() + ((TypeError,) if name.startswith("to_") else ())      # holders document TypeError for the wrong kind
+            if not isinstance(e, allowed):
+                ctx.fail("returned_object_readable", "undocumented_exception_from_a_reader_of_the_decoded_object", f"{exc_sig(e)}<-{type(obj).__name__}.{name}<-{short}", case, error=repr(e), origin=origin)
+            continue
+        ctx.ev("returned_object_readable")
+        if depth < 1 and name.startswith(("to_", "get_")) and v is not None:
+            probe(ctx, short, v, case, origin, depth + 1)
 
 
 def k_call(ctx, dname, raw, must_raise=False):
@@ -569,7 +631,7 @@ def conclude(ctx):
         if d not in never_raise:
             ctx.require(d in seen_raise, f"entry point {d}: no documented raise observed")
     ctx.require(len(ctx.tables.get("prefix_families", {})) == len(fam()), "prefix families incomplete")
-    for m in ("escape", "prefix_rejected", "complete_unit_decodes"):
+    for m in ("escape", "prefix_rejected", "complete_unit_decodes", "returned_object_readable"):
         ctx.require(ctx.monitors.get(m, {}).get("evaluations", 0) > 0, f"monitor {m} never evaluated")
     lg = ctx.extra.get("loop_guard", {})
     ctx.require(lg.get("total_back_edges", 0) > 0, "loop guard observed no backward jump (monitor not reached)")
